@@ -498,17 +498,43 @@ func ruleMigrateRound2(c *Ctx) {
 		if te := resolveRole(c, migPkg, "(*Transformer).transformElements"); te != nil {
 			n := 0
 			for _, cs := range callsIn(te) {
-				if cs.common.StaticCallee() == nil || cs.common.StaticCallee().Name() != "isProviderBound" {
+				// the "already bound?" predicate: a package function returning bool that is given a provider function and a
+				// set (map) of bound types - recognised by its shape, not by its name or parameter order
+				cal := cs.common.StaticCallee()
+				if cal == nil || fnPkgPath(cal) != migPkg || cal.Signature.Results().Len() != 1 || cal.Signature.Results().At(0).Type().String() != "bool" {
+					continue
+				}
+				setIdx, takesProvider := -1, false
+				for i, a := range cs.common.Args {
+					if _, isMap := a.Type().Underlying().(*types.Map); isMap {
+						setIdx = i
+					}
+					if strings.HasSuffix(a.Type().String(), "WireProviderFunc") {
+						takesProvider = true
+					}
+				}
+				if setIdx < 0 || !takesProvider {
 					continue
 				}
 				n++
 				s := newSym(L, map[string]bool{})
 				s.maxD = 0
-				t := strings.Join(s.eval(cs.arg(2)), "|")
-				c.check(strings.Contains(t, "collectBoundTypes(") && !strings.HasPrefix(t, "field:"), "C13.5", "transformElements:bound-types-local", L.pos(cs.instr.Pos()),
+				t := strings.Join(s.eval(cs.arg(setIdx)), "|")
+				// the set is the result of a package function applied to transformElements' own element list
+				local := false
+				if bc, isCall := resolve(cs.arg(setIdx)).(*ssa.Call); isCall {
+					if bcal := bc.Common().StaticCallee(); bcal != nil && fnPkgPath(bcal) == migPkg {
+						for _, a := range bc.Common().Args {
+							if prm, isP := resolve(a).(*ssa.Parameter); isP && prm.Parent() == te && strings.Contains(prm.Type().String(), "WirePattern") {
+								local = true
+							}
+						}
+					}
+				}
+				c.check(local && !strings.HasPrefix(t, "field:"), "C13.5", "transformElements:bound-types-local", L.pos(cs.instr.Pos()),
 					"a provider is dropped as 'already bound' only against the Binds of the very set/injector being transformed (no state carried from other patterns or files)", t)
 			}
-			c.floor("C13.5", "isProviderBound call sites", n, 1)
+			c.floor("C13.5", "call sites of the already-bound predicate", n, 1)
 		}
 		// no Transformer field is written by the per-pattern transforms except the type converter handle
 		for _, fn := range migFuncs(L) {
